@@ -17,6 +17,10 @@ def one(sid, checks, tier):
     d = os.path.join(V, 'seeded', sid)
     meta = json.load(open(os.path.join(d, 'meta.json')))
     prop = meta['property']
+    if meta.get('stale'):
+        # the lines this change edits were rewritten by a later fix: commit in /repo; it cannot be applied to the current
+        # tree any more (its last run against the checks is kept in RESULTS.json)
+        return {'id': sid, 'property': prop, 'stale': meta['stale'], 'checks': {}}
     wt = tempfile.mkdtemp(prefix='seedwt_')
     os.rmdir(wt)
     out = tempfile.mkdtemp(prefix='seedout_')
@@ -64,6 +68,11 @@ def main():
     if os.path.exists(path):
         old = {r['id']: r for r in json.load(open(path))}
     for r in results:
+        if r.get('stale') and r['id'] in old:
+            r['checks'] = old[r['id']].get('checks', {})
+            r['last_run_before_the_fix'] = True
+            old[r['id']] = r
+            continue
         if r['id'] in old and 'checks' in old[r['id']] and 'checks' in r:
             merged = dict(old[r['id']]['checks'])
             merged.update(r['checks'])
@@ -71,6 +80,9 @@ def main():
         old[r['id']] = r
     json.dump([old[k] for k in sorted(old)], open(path, 'w'), indent=1)
     for r in results:
+        if r.get('stale'):
+            print('%-8s STALE %s' % (r['id'], r['stale'][:120]))
+            continue
         if 'error' in r:
             print('%-8s ERROR %s' % (r['id'], r['error']))
         for c, x in r.get('checks', {}).items():
